@@ -3,15 +3,22 @@ CFG = {
     "cmd": "c01",
     "batches": lambda tier, seed: [("exhaustive", "-mode exhaustive -full=false -tier %s" % tier),
                                    ("shapes", "-mode shapes -tier %s" % tier),
+                                   ("avlshapes", "-mode avlshapes -tier %s" % tier),
+                                   ("selections", "-mode selections -tier %s" % tier),
                                    ("churn", "-mode churn -tier %s" % tier)],
     "signatures": {},
+    "max_report": 1,       # one shrunk replay per batch (shrinking a hang costs a watchdog deadline per step)
     "model_args": "-prop C15",
     "rule": "after every mutator (exhaustive short histories over 4 keys x 3 implementations x up to 6 comparators, among them a-b, b-a and 3*(a-b) whose results are never +-1) and periodically in long "
             "histories (sorted / reverse-sorted / zig-zag / random insertions of up to 300 (quick) or 3000 (thorough) keys followed by "
             "DeleteMin / DeleteMax / alternating / keyed drains; random churn over up to 64 keys) the harness records Height(), "
             "Traverse(VLR), Traverse(LVR) and the hook dump (cached size, height, colour per node). The driver rebuilds the shape from "
             "the two public traversals with the extracted, proved rebuild function and checks Height() = longest path, AVL balance on "
-            "real heights, cached = real heights, red-black colour invariants, black balance and height <= 2*log2(n+1); the model tree "
+            "real heights, cached = real heights (also: avlshapes = adversarial AVL shapes at scale — minimal (Fibonacci), sparse-spine and key-rich "
+            "subtrees of heights 5-9 on both sides of a node, realised by level-order Put, then Delete of the two-children node / its "
+            "successor / predecessor / successor's parent / DeleteMin / DeleteMax; selections = the history continues ON the result of "
+            "SelectMatch / PartitionMatch for selection sizes 1..100 (quick) with DeleteMin runs, Puts below the minimum, Delete in the upper "
+            "half then Put in the lower half), red-black colour invariants, black balance and height <= 2*log2(n+1); the model tree "
             "is compared field by field as a fidelity observable. Non-trivial: two or more mutators that changed the number of keys, and two or more keys reached.",
     "assumptions": ["the hook VerifTreeDump reports the fields of the nodes faithfully (add-only file export_verif_trees.go)",
                     "Go int arithmetic does not overflow"],
